@@ -201,6 +201,8 @@ def havoc_heap(self, body):
       elif isinstance(n, ast.With):
         # monitor (re)acquisition inside the loop havocs the protected fields anyway
         pass
+  extra = (getattr(self.spec, 'loop_heap', None) or {}).get(getattr(self, '_cur_loop', None), ())
+  names |= set(extra)   # fields written by summaries called in the body (constructors, recorded effects): declared in the sidecar
   keys = []
   for (cls, f), arr in list(self.heap.items()):
     if f in names:
@@ -226,8 +228,8 @@ def frame_formulas(self, keys=None):
     self.heap = saved_heap
   out = []
   for key in sorted(self.heap_written if keys is None else keys):
-    if key not in self.heap:
-      continue
+    if key not in self.heap or key[1] == '$alloc':
+      continue   # (the allocation set only grows; that is stated by invariants where needed)
     now, before = self.heap[key], self.old_heap.get(key, self.heap0.get(key))
     if z3.eq(now, before):
       continue
